@@ -331,8 +331,11 @@ class Enumerator(object):
                 raise Unrecognised('for-loop desugaring not recognised')
             pat, it, body = fl
             itt = self.leaf(it, path)
-            path.effects.append('for %s in %s {' % (H.pat_term(pat, True), S.show(itt)))
-            self.ev.bind_pat(pat, ('call', 'iter_item', (itt,), ()), path.env)
+            itt, item = S.iter_view(itt)
+            if path.effects and path.effects[-1].startswith('std::collections::HashMap::') and path.effects[-1] != S.show(itt) and itt[0] == 'call' and itt[1] == 'std::collections::HashMap::iter':
+                path.effects[-1] = S.show(itt)  # keys()/values() read as a projection of iter()
+            path.effects.append('for _ in %s {' % S.show(itt))
+            self.ev.bind_pat(pat, item, path.env)
             outs = self.run(body, path)
             res = []
             for p in outs:
@@ -406,6 +409,18 @@ class Enumerator(object):
                         nxt.append(p)
                         continue
                     for q in self.run(s['init'], p):
+                        if not q.done and s.get('els') is not None:
+                            # let PAT = init else { diverge }: two paths, like if-let
+                            ty = s['init'].get('ty')
+                            ep = q.fork()
+                            npred = canon.complement_pred(s['pat'], ty)
+                            w = canon.whole(s['pat'], ty)
+                            info = canon.variants_of(ty)
+                            nnames = (set(x[0] for x in info[1]) - w) if (info is not None and isinstance(w, set)) else None
+                            self.add_pat_cond(ep, q.value, npred, nnames)
+                            nxt.extend(self.run(s['els'], ep))
+                            pred, names = canon.pattern_pred(s['pat'], ty)
+                            self.add_pat_cond(q, q.value, pred, names)
                         if not q.done:
                             val = q.value
                             pat = s['pat']
